@@ -12,8 +12,9 @@
    with the generation order that networkx's topological_sort produces (the default order oracle of the model; the harness
    checks on every run that the order recorded from the real run is generation-sorted). The property is FALSE for an
    arbitrary valid topological order (a chain placed before a sibling): it depends on that library choice.
-   Not proved for all plain DAGs (DESIGN 4, C06): decided on generated programs by withholding every completion of depth d on
-   the real engine and checking that all depth-d bodies have started. Not exhibited: a real pool with fewer workers than
+   Kind F (C06_on_plain_programs, below): proved for ALL plain programs and ALL schedules, given library orders that are valid
+   and sorted by depth (decidable: valid_orders_b, c06_orders_b) -- Proofs/PlainC06.v. On the real engine the statement is
+   decided on generated programs by withholding every completion of depth d and checking that all depth-d bodies have started. Not exhibited: a real pool with fewer workers than
    siblings queues work items ("started" then means "submitted"). *)
 From MLPE Require Import Engine.Run Spec.Dataflow Spec.Fragments Proofs.ExecLemmas Explore.StateEq Explore.Erase Explore.Explorer Explore.Safe
      Catalogue.Programs Catalogue.Certified Proofs.CertLemmas.
@@ -26,3 +27,26 @@ Proof.
 Qed.
 Print Assumptions C06_catalogue.
 
+
+(* ---- kind F: ALL plain programs, ALL schedules -------------------------------------------------------------------------------- *)
+From MLPE Require Import Proofs.PlainWorld Proofs.PlainLive Proofs.PlainDeadlock Proofs.PlainC06.
+
+(* for every plain program (any size and shape, retry / default settings, execution modes, gated or raising event managers and
+   stores) and every schedule, given library orders that are valid and sorted by depth (decidable; c06_orders_b): the C06
+   statement holds in every reachable state. *)
+Theorem C06_on_plain_programs :
+  forall P, plain_prog P -> valid_orders P -> c06_orders_b P = true -> C06_statement P.
+Proof. exact plain_programs_launch_by_depth. Qed.
+Print Assumptions C06_on_plain_programs.
+
+(* the hypotheses hold on catalogue programs with the networkx-exact default order oracle: three siblings, and a mix of modes *)
+Example C06_plain_hypotheses_hold :
+  (plain_prog cat_three_siblings /\ valid_orders cat_three_siblings /\ c06_orders_b cat_three_siblings = true) /\
+  (plain_prog cat_inline_mix /\ valid_orders cat_inline_mix /\ c06_orders_b cat_inline_mix = true).
+Proof.
+  assert (Hp : forall P bs, p_body P = dsl_body bs -> forallb (fun nb => beh_plain (nb_beh nb)) bs = true ->
+                            graph_plain (b_graph (build (p_decls P) (p_inp P) (p_out P))) = true -> kw_clean (p_input P) = true -> plain_prog P).
+  { intros P bs Eb Hb Hg Hi. split; [exact Hg|]. split; [rewrite Eb; apply dsl_body_clean; exact Hb|exact Hi]. }
+  split; (split; [eapply Hp; [reflexivity|vm_compute; reflexivity|vm_compute; reflexivity|vm_compute; reflexivity]
+                 |split; [apply valid_orders_b_sound; vm_compute; reflexivity|vm_compute; reflexivity]]).
+Qed.
